@@ -32,6 +32,7 @@ type verifApp struct {
 	appMayReject   bool // FromApp may return a session-level or business reject
 	toAppMayRefuse bool // ToApp may return an error (ErrDoNotSend)
 	refusals       int
+	logonAsksReset bool // ToAdmin adds ResetSeqNumFlag=Y to an outgoing Logon (an application may decorate admin messages)
 }
 
 func (a *verifApp) OnCreate(SessionID) {}
@@ -43,7 +44,14 @@ func (a *verifApp) OnLogout(SessionID) {
 	a.onLogout++
 	a.inLogon = false
 }
-func (a *verifApp) ToAdmin(*Message, SessionID) { a.toAdmin++ }
+func (a *verifApp) ToAdmin(m *Message, _ SessionID) {
+	a.toAdmin++
+	if a.logonAsksReset {
+		if t, err := m.Header.GetBytes(tagMsgType); err == nil && len(t) == 1 && t[0] == 'A' {
+			m.Body.SetBool(tagResetSeqNumFlag, true)
+		}
+	}
+}
 func (a *verifApp) ToApp(m *Message, _ SessionID) error {
 	a.toApp++
 	if a.toAppMayRefuse && ndBool("toapp-refuses") {
